@@ -515,6 +515,12 @@ pub const SPECIAL_NAMES: &[&str] = &[
     "00000", "000000000", "CACHEDIR.TAG.bak", "con", "nul",
 ];
 
+/// Names made of glob metacharacters, each with siblings in NAMES that it would match if it
+/// were (wrongly) read as a pattern: `a?` ~ ab, a., a-; `a*` ~ a, ab, a.b; `[a]` ~ a; ...
+pub const GLOB_NAMES: &[&str] = &[
+    "a?", "a*", "[a]", "a[b]", "{a,b}", "a\\b", "*", "?", "[", "]", "**", "[!a]", "a[", "\\", "a{", "*.b", "[a-z]",
+];
+
 pub const NAMES: &[&str] = &[
     "a", "b", "ab", "a.b", "a b", "a-", "a!", "a+", "a0", "a~", "A", "z", "é", "éa", "日", "日本",
     "😀", ".x", ".a", "~", "-", "0", "x.txt", "b.c", "c", "d", "ab.c", "a_b", " ", "#", "a.",
@@ -535,7 +541,7 @@ pub fn name_strategy_for(cfg: TreeCfg) -> BoxedStrategy<String> {
             2 => name_strategy(),
         ]
         .boxed()
-    } else if cfg.max_len >= 8192 {
+    } else if cfg.max_len >= 8192 || cfg.long_names {
         name_strategy_with_long()
     } else {
         name_strategy()
@@ -548,6 +554,7 @@ pub fn name_strategy() -> BoxedStrategy<String> {
         2 => "[a-z0-9 .!#+~_-]{1,6}".prop_map(|s| if s == "." || s == ".." { format!("_{s}") } else { s }),
         1 => "[a-cé日]{1,3}",
         1 => prop::sample::select(SPECIAL_NAMES).prop_map(|s| s.to_string()),
+        1 => prop::sample::select(GLOB_NAMES).prop_map(|s| s.to_string()),
     ]
     .boxed()
 }
@@ -575,6 +582,8 @@ pub struct TreeCfg {
     pub plain_meta: bool,
     /// Bias names to multi-byte characters and siblings that textually extend one another.
     pub prefixy_names: bool,
+    /// Rarely a name of 160-250 bytes (also chosen when max_len >= 8192).
+    pub long_names: bool,
 }
 
 impl TreeCfg {
@@ -589,6 +598,7 @@ impl TreeCfg {
             owners: true,
             plain_meta: false,
             prefixy_names: false,
+            long_names: true,
         }
     }
     /// Small trees with ordinary metadata, for checks where metadata is not the point.
@@ -603,6 +613,7 @@ impl TreeCfg {
             owners: false,
             plain_meta: true,
             prefixy_names: false,
+            long_names: false,
         }
     }
 }
@@ -933,6 +944,28 @@ pub fn wide_tree(n: usize, dirs: usize, len_base: u32, meta: Meta) -> Tree {
                 kind: Kind::File { pool, len },
                 meta: Meta { mode: 0o644, mtime_s: meta.mtime_s + i as i64, ..meta },
             },
+        );
+    }
+    t
+}
+
+/// About n files in directories whose names extend one another (`lib`, `lib-extra`,
+/// `lib.d`, `lib/sub`, ...), so that the documented order differs from a plain string order
+/// at many places of one long index hunk.
+pub fn prefixy_wide_tree(n: usize, meta: Meta) -> Tree {
+    let mut t = Tree::empty_root(Meta { mode: 0o755, ..meta });
+    let dirs = ["lib", "lib-extra", "lib.d", "lib/sub", "lib/sub-2", "lib/sub/x", "a", "a b", "a-", "a/b", "a.b", "é", "éa", "é/d"];
+    for d in dirs {
+        t.0.insert(format!("/{d}"), Node { kind: Kind::Dir, meta: Meta { mode: 0o755, ..meta } });
+    }
+    for i in 0..n {
+        let d = dirs[i % dirs.len()];
+        let pool = 2 + (i % 6) as u8;
+        let len = 1 + (i / 6) as u32 % 50;
+        let name = if i % 5 == 0 { format!("f{i:04}") } else { format!("f-{i:04}") };
+        t.0.insert(
+            format!("/{d}/{name}"),
+            Node { kind: Kind::File { pool, len }, meta: Meta { mode: 0o644, mtime_s: meta.mtime_s + i as i64, ..meta } },
         );
     }
     t
